@@ -19,3 +19,10 @@ pub fn format(_args: core::fmt::Arguments<'_>) -> String {
 pub fn random_state_new() -> std::hash::RandomState {
     unsafe { core::mem::transmute::<[u64; 2], std::hash::RandomState>([0, 0]) }
 }
+
+/// `String::from_utf8_lossy` iterates over UTF-8 chunks of its input, which the symbolic executor
+/// cannot finish on a symbolic slice.  The harnesses that use this stub assert that every byte
+/// handed to it is ASCII or part of the two-byte micro sign, on which the stub is exact.
+pub fn from_utf8_lossy(v: &[u8]) -> std::borrow::Cow<'_, str> {
+    std::borrow::Cow::Borrowed(unsafe { core::str::from_utf8_unchecked(v) })
+}
